@@ -7,7 +7,8 @@ rows = ["%d changes to gorilla/websocket were written by sub-agents that were gi
         "property and a scratch worktree of /repo, with the brief: break the property, keep the package compiling and",
         "the pinned suite passing, make the failure need something specific, and demonstrate it with a test. Round 1:",
         "two per property (`seeded/Cxx-n`); round 2, after the machinery had been strengthened and three more defects",
-        "repaired: three per property, asked for mechanisms a reviewer would not think of first (`seeded/Cxx-r2n`).",
+        "repaired: three per property, asked for mechanisms a reviewer would not think of first (`seeded/Cxx-r2n`);",
+        "round 3: thirty more, each agent confined to one file other than conn.go (`seeded/Cxx-r3<file>n`).",
         "Each was confirmed (demo passes on the clean tree and fails with the change; suite passes with it), stored",
         "with `patch.diff`, `demo_test.go`, `meta.json`, and run against the property's quick check with",
         "`tools/seedrun.sh` (apply to /repo, check, `git checkout -- .`). `tools/seedall.py` re-runs them all and",
@@ -60,7 +61,23 @@ by Upgrade: clause 173), C19-r22 (a prepared close must be the last frame and la
 C06-r22 (ReadMessage pre-sizing its buffer from the declared length) makes the harness run out of memory or
 time: reported as a violation without a failing input; C07r's clause 30 catches the same idea (C07-r22) as a
 concrete input. C12-r23 (backslash handling in quoted strings) and C14-r21's syntactic half are caught by
-the model correspondence / the regenerated facts only.""")
+the model correspondence / the regenerated facts only.
+
+Round 3: thirty more, each agent restricted to one file other than conn.go (mask.go, compression.go, join.go /
+json.go, prepared.go, proxy.go, util.go, server.go, client.go), seeds `seeded/Cxx-r3<file>n`. Ten were missed
+at first: C01-r3mask1 (a zero-length Read resets the unmasking position: the bufio model was not faithful
+for zero-length reads; model repaired, proofs adapted, zero-length reads generated), C01-r3mask2 (a fast path
+for slices of 4096 bytes or more: write / read buffers of 8192 and 16384 bytes with messages at and beyond
+them), C03-r3comp2 (bytes returned together with io.EOF by the flate reader dropped: only BFINAL-terminated
+streams show it; first filed under C01, whose peers are the library's own writer, which never sends them),
+C03-r3join3 (ReadJSON: harness C01j now also runs under C03), C14-r3util143 (parameters of a malformed
+extension line leaking into the next line: arrangement added to C15r, which now also runs under C14),
+C16-r3proxy162 (the handshake context not handed to the forward dialer: clause 174), C16-r3proxy163 (a leak
+only when the failing read returns after the context has expired: fault kind "the peer goes silent until the
+deadline has passed"), C18-r3proxy181 (2xx CONNECT replies taken for success: every reply class is tried and
+clause 166 counts what the client still sends after a refusal), C18-r3proxy183 (SOCKS5 first hop bypassing the
+caller's dial function: clause 165), C19-r3prep1 (payload copy off by six at exactly 65536 bytes: 64 KiB
+payloads in the generator).""")
 sec = open('/verif/tools/design_sec11.md').read().replace('SEEDED_TABLE', '\n'.join(rows))
 d = open('/verif/DESIGN.md').read()
 d = re.sub(r'## 11\. As built.*?(?=## Appendix A\.)', '', d, flags=re.S)
